@@ -126,7 +126,7 @@ PROPS = {
                    "(mailboxes, late transfers to threads that already reported idle, batches) over 1-4 consecutive loops with changing thread counts. Oracles: outstanding-work ledger at every "
                    "observation of globalTermination() (safety), announcement within 2*(3n+6) fair idle rounds after the last unit is consumed (bounded liveness), re-arming/reuse.",
         level_note="Sampling over seeds; the liveness bound is counted in fair rounds (every thread reported idle once), which no schedule can inflate.",
-        **tiers(8000, 120, 200000, 1500)),
+        **tiers(30000, 150, 800000, 1800)),
     "C05": dict(
         jobs=[dict(harness="c05_barrier", variant="a", weight=2), dict(harness="c05_barrier", variant="n", weight=1)],
         components=comp(), expected_probes=["region_fastmode", "region_sleepmode"],
@@ -242,7 +242,7 @@ PROPS = {
                    "with fenced phases (HostFence / HostBarrier). Oracle: exactly-once, per-stream FIFO, routing, deserialised values equal and all bytes consumed (at whatever alignment the aggregation schedule produced), "
                    "nothing of a phase arrives after its fence. Faults: message delay, lazy Iprobe/Test, host stalls, clock jumps (aggregation time-out), spurious weak-CAS failure.",
         level_note="Sampling over seeds. MPI itself is a stub that keeps the standard's guarantees (reliable, non-overtaking per pair); loss/duplication/corruption are not injected because the code makes no promise about them.",
-        **tiers(1500, 170, 40000, 2400, run_timeout_s=120)),
+        **tiers(1500, 170, 40000, 2400, run_timeout_s=300)),
     "C19": dict(
         jobs=[dict(harness="c18_gluon", variant="a", weight=2, build=dist_build(libs=("libgalois", "libdist", "libgluon", "simmpi")), params={"mode": 0}),
               dict(harness="c18_gluon", variant="n", weight=1, build=dist_build(libs=("libgalois", "libdist", "libgluon", "simmpi")), params={"mode": 0})],
@@ -255,7 +255,7 @@ PROPS = {
                    "each input edge exactly once in the union, exactly one master per node and agreement of getHostID, L2G/G2L inverse, masters before mirrors, a proxy for every endpoint of a local edge, mirror lists equal to the "
                    "non-owned proxies grouped by owner, OEC/IEC promises. The simulator varies the arrival order of edge/metadata messages, host and communication-thread stalls, threads per host.",
         level_note="Sampling over seeds; MPI is a stub that keeps the standard's guarantees. Master/mirror list agreement between peers is exercised through the Gluon exchange in the C18 check.",
-        **tiers(400, 170, 20000, 2400, run_timeout_s=120)),
+        **tiers(400, 170, 20000, 2400, run_timeout_s=300)),
     "C18": dict(
         jobs=[dict(harness="c18_gluon", variant="a", weight=2, build=dist_build(libs=("libgalois", "libdist", "libgluon", "simmpi")), params={"mode": 1}),
               dict(harness="c18_gluon", variant="n", weight=1, build=dist_build(libs=("libgalois", "libdist", "libgluon", "simmpi")), params={"mode": 1})],
@@ -267,7 +267,7 @@ PROPS = {
                    "write location Any and read locations Source/Destination/Any. Pre- and post-sync values of every proxy leave through the side channel; the parent requires every readable proxy (and the master) to hold exactly "
                    "the reduction of the master's previous value and all contributions.",
         level_note="Sampling over seeds. Write locations Source/Destination are exercised only through write-Any plans at this commit (eligibility is decided from the gathered edges on the read side).",
-        **tiers(300, 170, 20000, 2400, run_timeout_s=120)),
+        **tiers(300, 170, 20000, 2400, run_timeout_s=300)),
 }
 
 ALL_IDS = ["C%02d" % i for i in range(1, 21)]
